@@ -233,6 +233,9 @@ def gen_group(run_seed):
             if not reuse:
                 rng.shuffle(rs)
             rng.shuffle(ss)
+            if reuse and rng.random() < 0.5:
+                # the kept rules list meets other molecules
+                ss = rng.sample(pool, rng.choice([1, 1, 2]))
         # each rule as reaction SMARTS or as RING text (mixed lists are
         # legal); one style per schedule is drawn, then perturbed per rule
         p_ring = rng.choice([0.0, 0.0, 0.5, 1.0])
@@ -349,7 +352,10 @@ def execute_group(group):
             stats['ring_rule_calls'] += 1
         log.add('call', i=ci, case=case, ev=ev)
         for v in vs:
-            v['spec'] = {'property': PROP, 'id': group['id'], 'cases': [case]}
+            # the calls this group made before belong to the history (a
+            # kept rules list, or whatever the package remembers)
+            v['spec'] = {'property': PROP, 'id': group['id'],
+                         'cases': group['cases'][:ci + 1]}
             viols.append(v)
         if info.get('setdig'):
             key = (tuple(sorted(case['seeds'])), tuple(sorted(case['rules'])))
@@ -366,18 +372,41 @@ def execute_group(group):
     return viols, log.digest(), stats
 
 
+ISOLATE_TASKS = True       # a task is one process lifetime (sim/runner.py)
+
+
+def task_groups(task):
+    groups = list(task.get('groups') or [])
+    for s in task.get('seeds') or []:
+        groups.append(gen_group(s))
+    return groups
+
+
+def spec_history(spec):
+    """The groups run before this one in its process lifetime."""
+    if spec.get('history') is not None:
+        return list(spec['history'])
+    ht = spec.get('history_task')
+    if ht:
+        return task_groups(ht['task'])[:ht['upto']]
+    return []
+
+
 def execute_spec(spec):
+    """In a process that has generated nothing yet."""
+    for g in spec_history(spec):
+        execute_group(g)
     viols, dig, stats = execute_group(spec)
     return viols, dig, stats
 
 
 def run_task(task):
-    groups = list(task.get('groups') or [])
-    for s in task.get('seeds') or []:
-        groups.append(gen_group(s))
+    groups = task_groups(task)
     results = []
-    for g in groups:
+    for gi, g in enumerate(groups):
         viols, dig, stats = execute_group(g)
+        for v in viols:
+            v['spec']['history_task'] = {'task': task, 'upto': gi}
         by = {}
         kept = []
         for v in viols:
@@ -445,16 +474,49 @@ def summarise(results):
     }
 
 
+def _forked(fn, timeout=900):
+    from sim.zygote import _run_chain_forked
+    kind, val = _run_chain_forked(lambda st, c: fn(), None, None, timeout)
+    return val if kind == 'ok' else False
+
+
 def shrink(spec, signature):
     import copy
-    best = copy.deepcopy(spec)
+    from sim.shrink import ddmin
+    hist = spec_history(spec)
+    best = copy.deepcopy(dict((k, v) for k, v in spec.items()
+                              if k != 'history_task'))
+    best['history'] = hist
 
     def ok(s):
-        try:
-            viols, _, _ = execute_spec(s)
-        except Exception:
-            return False
-        return any(v['signature'] == signature for v in viols)
+        # every trial in a fork of this (unused) process
+        def run():
+            try:
+                viols, _, _ = execute_spec(s)
+            except Exception:
+                return False
+            return any(v['signature'] == signature for v in viols)
+        return _forked(run)
+    # the groups run before: none, or as few as needed
+    if hist:
+        if ok(dict(best, history=[])):
+            best['history'] = []
+        elif ok(best):
+            best['history'] = ddmin(
+                hist, lambda h: ok(dict(best, history=list(h))), max_tests=60)
+    # the earlier calls of the group itself
+    if len(best['cases']) > 1:
+        last = best['cases'][-1]
+        if ok(dict(best, cases=[last])):
+            best['cases'] = [last]
+        else:
+            head = ddmin(best['cases'][:-1],
+                         lambda h: ok(dict(best, cases=list(h) + [last])),
+                         max_tests=40)
+            best['cases'] = list(head) + [last]
+    if best['history'] or len(best['cases']) > 1:
+        best['history_needed'] = len(best['history']) + len(best['cases']) - 1
+        return best
     # fewer rules, then smaller seeds
     changed = True
     while changed:
